@@ -130,6 +130,9 @@ func (s *Server) applyPatchLocked(rs *resState, in *opInput, cur Obj, entry *Req
 	if m, ok := next["metadata"].(map[string]interface{}); ok {
 		delete(m, "managedFields")
 	}
+	if exists {
+		mergeOwnerRefsListMap(next, cur)
+	}
 	if !exists {
 		code, created := s.createLocked(rs, ri.NS, next, entry)
 		if code == 201 {
@@ -192,4 +195,44 @@ func normalizeNumbers(v interface{}) interface{} {
 		return int64(t)
 	}
 	return v
+}
+
+// mergeOwnerRefsListMap emulates the one place where the schema-less type converter differs from
+// a real server in a way metacontroller can observe: metadata.ownerReferences is a list-map keyed
+// by uid, so an apply only owns the entries it names and entries of other owners survive. Entries
+// of the live object keep their position; applied entries replace their namesakes or are appended.
+func mergeOwnerRefsListMap(next, cur Obj) {
+	nm := meta(next)
+	applied, _ := nm["ownerReferences"].([]interface{})
+	live, _ := metaRO(cur)["ownerReferences"].([]interface{})
+	if len(live) == 0 {
+		return
+	}
+	byUID := map[string]interface{}{}
+	for _, it := range applied {
+		if r, ok := it.(map[string]interface{}); ok {
+			u, _ := r["uid"].(string)
+			byUID[u] = it
+		}
+	}
+	var out []interface{}
+	used := map[string]bool{}
+	for _, it := range live {
+		r, _ := it.(map[string]interface{})
+		u, _ := r["uid"].(string)
+		if a, ok := byUID[u]; ok {
+			out = append(out, a)
+			used[u] = true
+		} else {
+			out = append(out, DeepCopyValue(it))
+		}
+	}
+	for _, it := range applied {
+		r, _ := it.(map[string]interface{})
+		u, _ := r["uid"].(string)
+		if !used[u] {
+			out = append(out, it)
+		}
+	}
+	nm["ownerReferences"] = out
 }
